@@ -238,10 +238,12 @@ class Program:
         if any(d.split('(')[0].split('.')[-1] == 'dataclass' for d in self.decorators(cls)): return True
         # a typing.NamedTuple subclass is a record with declared fields, too (positional order = declaration order)
         if any(ast.unparse(b).split('.')[-1] == 'NamedTuple' for b in cls.bases): return True
-        for m_ in self.modules.values():          # (the module of the class is not passed in: find it)
-            if any(c_ is cls for c_ in ast.walk(m_.tree) if isinstance(c_, ast.ClassDef)):
-                return any(self.base_name(m_, b) == 'NamedTuple' for b in cls.bases)
-        return False
+        if not cls.bases: return False
+        owner = self.__dict__.get('_class_owner')
+        if owner is None:          # (the module of the class is not passed in: index every class once)
+            owner = self.__dict__['_class_owner'] = {id(c_): m_ for m_ in self.modules.values() for c_ in ast.walk(m_.tree) if isinstance(c_, ast.ClassDef)}
+        m_ = owner.get(id(cls))
+        return m_ is not None and any(self.base_name(m_, b) == 'NamedTuple' for b in cls.bases)
 
     def is_frozen(self, cls: ast.ClassDef) -> bool:
         return any('frozen=True' in d.replace(' ', '') for d in self.decorators(cls))
